@@ -419,4 +419,88 @@ theorem merged_rest_value (inits : List (Sym × Expr)) (given : PMap)
           simp only [hkeep, Bool.not_false, ↓reduceIte, PMap.value, Key.name, h]
           exact ih'
 
+/-! ### `{str(key): value …}` (normalise) -/
+
+theorem pyInsert_isStr (m : PMap) (n : Sym) (v : Expr) (h : ∀ p ∈ m, p.1.isStr = true) :
+    ∀ p ∈ pyInsert m (.str n) v, p.1.isStr = true := by
+  intro p hp
+  unfold pyInsert at hp
+  split at hp
+  · simp only [List.mem_map] at hp
+    obtain ⟨q, hq, rfl⟩ := hp
+    split <;> exact h q hq
+  · simp only [List.mem_append, List.mem_singleton] at hp
+    rcases hp with hp | hp
+    · exact h p hp
+    · subst hp; rfl
+
+theorem normFrom_isStr (rest : PMap) :
+    ∀ acc : PMap, (∀ p ∈ acc, p.1.isStr = true) →
+      ∀ p ∈ rest.foldl (fun acc p => pyInsert acc (Key.str p.1.name) p.2) acc, p.1.isStr = true := by
+  induction rest with
+  | nil => intro acc h; simpa using h
+  | cons q rest ih =>
+    intro acc h
+    simp only [List.foldl_cons]
+    exact ih _ (pyInsert_isStr acc _ _ h)
+
+theorem normalise_isStr (m : PMap) : ∀ p ∈ normalise m, p.1.isStr = true :=
+  normFrom_isStr m [] (by simp)
+
+theorem any_key_false_of_name (acc : PMap) (n : Sym) (h : n ∉ acc.map (fun p => p.1.name)) :
+    acc.any (fun q => q.1 == Key.str n) = false := by
+  rw [List.any_eq_false]
+  intro q hq hk
+  apply h
+  simp only [List.mem_map]
+  refine ⟨q, hq, ?_⟩
+  have : q.1 = Key.str n := by simpa using hk
+  rw [this]; rfl
+
+theorem normFrom_value (n : Sym) (rest : PMap) :
+    ∀ acc : PMap, (∀ p ∈ rest, p.1.name ∉ acc.map (fun q => q.1.name)) →
+      (rest.map (fun p => p.1.name)).Nodup →
+      PMap.value (rest.foldl (fun acc p => pyInsert acc (Key.str p.1.name) p.2) acc) n =
+        match acc.value n with
+        | some v => some v
+        | none => rest.value n := by
+  induction rest with
+  | nil =>
+    intro acc _ _
+    simp only [List.foldl_nil]
+    cases h : acc.value n <;> simp [PMap.value]
+  | cons q rest ih =>
+    intro acc hdis hnd
+    obtain ⟨k, v⟩ := q
+    simp only [List.map_cons, List.nodup_cons] at hnd
+    have hk : k.name ∉ acc.map (fun q => q.1.name) := hdis (k, v) (by simp)
+    have hins : pyInsert acc (Key.str k.name) v = acc ++ [(Key.str k.name, v)] := by
+      simp [pyInsert, any_key_false_of_name acc k.name hk]
+    simp only [List.foldl_cons, hins]
+    rw [ih (acc ++ [(Key.str k.name, v)]) _ hnd.2]
+    · rw [PMap.value_append]
+      cases acc.value n with
+      | some v0 => rfl
+      | none =>
+        have hn : (Key.str k.name).name = k.name := rfl
+        simp only [PMap.value, hn]
+        by_cases h : n = k.name
+        · simp [h]
+        · simp only [h, ↓reduceIte]
+    · intro p hp
+      have hn : (Key.str k.name).name = k.name := rfl
+      simp only [List.map_append, List.map_cons, List.map_nil, List.mem_append, List.mem_singleton, hn, not_or]
+      refine ⟨hdis p (List.mem_cons_of_mem _ hp), ?_⟩
+      intro he
+      apply hnd.1
+      simp only [List.mem_map]
+      exact ⟨p, hp, he⟩
+
+/-- For a mapping with one entry per parameter name, normalising the keys to strings keeps every value. -/
+theorem normalise_value (m : PMap) (hnd : (m.map (fun p => p.1.name)).Nodup) (n : Sym) :
+    (normalise m).value n = m.value n := by
+  unfold normalise
+  rw [normFrom_value n m [] (by simp) hnd]
+  rfl
+
 end Pharmpy.C07
